@@ -14,7 +14,7 @@ YOUR TASK: make ONE realistic change to the source under $wt/openpectus (non-tes
 
 Then write a DEMONSTRATION: $out/demo.py, a small standalone program (run as: cd $wt && PYTHONPATH=$wt /venv/bin/python $out/demo.py) that drives the REAL code (not a re-implementation) and exits 0 printing a one-line "OK: ..." when the property holds and exits 1 printing a one-line "PROPERTY VIOLATED: ..." when it does not. It must FAIL (exit 1) with your change and PASS (exit 0) without it (verify both: use 'git stash' / 'git stash pop' in $wt). Keep its last output line the OK / PROPERTY VIOLATED line. Look at openpectus/test/** for how the tests construct engines/aggregators (e.g. openpectus/test/engine/utility_methods.py has EngineTestRunner; test UODs are in openpectus/test/engine/test_engine.py) and reuse those helpers.
 
-Check the existing tests still pass with your change: at minimum run the test modules related to the files you touched (cd $wt && PYTHONPATH=$wt /venv/bin/python -m pytest -q -p no:cacheprovider -x <modules>), and finally the whole suite once: cd $wt && PYTHONPATH=$wt /venv/bin/python -m pytest -q -p no:cacheprovider --timeout=900 --continue-on-collection-errors 2>&1 | tail -15   (takes 6-15 minutes; note: on the unchanged tree a handful of tests under openpectus/test/engine/integration_tests, and a labjack collection error, already fail — those do not count; run it in the unchanged tree too if unsure). If a previously-passing test fails with your change, pick a different change.
+Check the existing tests still pass with your change: at minimum run the test modules related to the files you touched (cd $wt && PYTHONPATH=$wt /venv/bin/python -m pytest -q -p no:cacheprovider -x <modules>), and finally the whole suite once: cd $wt && PYTHONPATH=$wt /venv/bin/python -m pytest -q -p no:cacheprovider --timeout=900 --continue-on-collection-errors 2>&1 | tail -15   (takes 6-15 minutes; note: on the unchanged tree a handful of tests under openpectus/test/engine/integration_tests, and a labjack collection error, already fail — those do not count; run it in the unchanged tree too if unsure). Other test suites may be running on this machine at the same time: the OPC-UA tests (openpectus/test/engine/test_opcua_hardware.py) and a few timing tests can fail from port/CPU contention - re-run such a module alone before concluding anything from it. If a previously-passing test fails because of your change, pick a different change. To check your demo without your change use 'git apply -R <patch>' / 'git apply <patch>' (not 'git stash': its stack is shared between worktrees).
 
 DELIVERABLES (all in $out/):
   - patch.diff : output of 'cd $wt && git diff' (source change only; keep demo.py outside the worktree in $out)
